@@ -203,6 +203,19 @@ def install(I):
     def _range(I, *a):
         if all(isinstance(x, int) for x in a):
             return range(*a)
+        if len(a) == 1:
+            # range(n) for a symbolic n: the sequence 0 .. n-1 (a SymSeq whose element i is i); an opaque n (an attribute of a
+            # library object) is an unknown non-negative-or-empty integer - one length per value
+            n = a[0]
+            if isinstance(n, SAny):
+                memo = cur().ghost.setdefault("range_len_of_opaque", {})
+                key = n.z.get_id()
+                if key not in memo:
+                    memo[key] = core.sym_int("int(opaque)")
+                n = memo[key]
+            if isinstance(n, SNum):
+                ln = core.SNum(z3.If(n.z > 0, n.z, z3.IntVal(0)))
+                return SymSeq("range", ln, lambda i: i if isinstance(i, (SNum, int)) else core.SNum(i), pre=False)
         raise Unsupported("symbolic range")
 
     @model(builtins.list)
